@@ -111,6 +111,8 @@ def check_cases(cases: list[dict], rep: Report, known: dict) -> None:
     b = Batch()
     work = []
     for c in cases:
+        if rep.stop():
+            break
         e, m = wire.build_raw(c["e"]), wire.build_raw(c["m"])
         vs = sorted(e._variable_names) or ["x"]
         pt = {n: 0.5 + k for k, n in enumerate(vs)}
@@ -219,7 +221,25 @@ def points(rep: Report) -> None:
                 rep.corr_break(f"Point repr differs from the model's rendering: {diff}: {text}", info)
 
 
+def odd_names(rep: Report) -> None:
+    """names that Variable should reject: if the implementation accepts one anyway, what it prints must
+    still evaluate back to it (the property quantifies over every expression the library can build)"""
+    for n in ["x\n", "x\r", "a\"b", "a\\", "x y", "x\t", "q\u2028", "\"", "x'", "x\x00", "x\n\n"]:
+        v = call(lambda: X.Variable(n))
+        if v[0] != "ok":
+            continue
+        rep.evaluations += 1
+        rep.count("accepted-odd-names", repr(n))
+        for e in (v[1], X.Logarithm(X.Negation(v[1]), base=2)):
+            text = repr(e)
+            back = call(lambda: eval(text, dict(NS)))
+            if back[0] != "ok" or not (back[1] == e) or str(e) != text:
+                rep.violation(f"an expression over the accepted variable name {n!r} does not print as an evaluable constructor call: {text!r} -> {back!r}"[:400],
+                              {"name": n})
+
+
 def run(rep: Report, rng, tier: str, known: dict, search: bool = False) -> None:
+    odd_names(rep)
     x = X.Variable("x")
     f1 = [{"origin": "corpus", "e": wire.expr(X.NthRoot(x, 3)), "m": wire.expr(X.NthPower(x, 3)), "mkind": "class"}]
     check_cases(([] if search else f1) + gen_cases(rng, tier), rep, known)
